@@ -99,9 +99,9 @@ class Class(Expression):
             with out.DEF('parse', self.params):
                 _closure, _ParseFunction = Code('_closure'), Code('_ParseFunction')
                 args = tuple(Code(x) for x in self.params)
-                out += _closure << _ParseFunction(parse_func, args, {})
+                out += _closure << _ParseFunction(parse_func, args, ())
                 out.RETURN(Code(
-                    f'lambda {ctx}text, pos=0, fullparse=True:'
+                    f'lambda text, pos=0, fullparse=True:'
                     f' _run({ctx}text, pos, _closure, fullparse)'
                 ))
         else:
